@@ -1,1 +1,123 @@
-//! C10: Comm-B registers (filled in with the Comm-B contracts).
+//! C10: Comm-B registers BDS 1,7 / 4,0 / 5,0 / 6,0 (ICAO Doc 9871 Table A-2-x), MB field =
+//! bits 33..88 of a DF20/21 reply.
+use super::bits::*;
+
+fn b(m: &[u32], p: u32) -> bool {
+    bit(m, p) == 1
+}
+/// two's complement value of a sign bit and an n-bit magnitude field
+fn twos(sign: u32, raw: u32, nbits: u32) -> i32 {
+    raw as i32 - if sign == 1 { 1i32 << nbits } else { 0 }
+}
+
+// ------------------------------------------------------------------ BDS 4,0
+/// status bits of the three displayed fields all set (MCP/FCU altitude, FMS altitude, baro setting)
+pub fn status_40(m: &[u32]) -> bool {
+    b(m, 33) && b(m, 46) && b(m, 59)
+}
+/// reserved bits 72-79 and 84-85 zero
+pub fn reserved_zero_40(m: &[u32]) -> bool {
+    bits(m, 72, 79) == 0 && bits(m, 84, 85) == 0
+}
+pub fn mcp_alt_40(m: &[u32]) -> u32 {
+    bits(m, 34, 45) * 16
+}
+pub fn fms_alt_40(m: &[u32]) -> u32 {
+    bits(m, 47, 58) * 16
+}
+/// barometric pressure setting in whole mb: raw*0.1 + 800, truncated
+pub fn baro_40(m: &[u32]) -> u32 {
+    bits(m, 60, 71) / 10 + 800
+}
+pub fn plausible_40(m: &[u32]) -> bool {
+    status_40(m) && reserved_zero_40(m) && bits(m, 34, 45) != 0 && bits(m, 47, 58) != 0 && bits(m, 60, 71) != 0
+        && baro_40(m) <= 1210
+}
+
+// ------------------------------------------------------------------ BDS 5,0
+pub fn status_50(m: &[u32]) -> bool {
+    b(m, 33) && b(m, 44) && b(m, 56) && b(m, 67) && b(m, 78)
+}
+/// roll angle in 1/256 units of 45 deg: exact value = roll_num_50 * 45 / 256 degrees
+pub fn roll_raw_50(m: &[u32]) -> i32 {
+    twos(bit(m, 34), bits(m, 35, 43), 9)
+}
+/// true track in units of 90/512 deg, two's complement of sign bit 45 + bits 46-55
+pub fn track_raw_50(m: &[u32]) -> i32 {
+    twos(bit(m, 45), bits(m, 46, 55), 10)
+}
+pub fn gs_50(m: &[u32]) -> u32 {
+    bits(m, 57, 66) * 2
+}
+/// track angle rate in units of 8/256 = 1/32 deg/s
+pub fn track_rate_raw_50(m: &[u32]) -> i32 {
+    twos(bit(m, 68), bits(m, 69, 77), 9)
+}
+pub fn tas_50(m: &[u32]) -> u32 {
+    bits(m, 79, 88) * 2
+}
+/// "integers truncated": |shown - exact| < 1 where exact = num/den
+pub fn trunc_ok(shown: i32, num: i64, den: i64) -> bool {
+    let d = shown as i64 * den - num;
+    d < den && d > -den
+}
+/// angle in [0,360) from a two's complement count of 90/512 deg
+pub fn angle_ok(shown: u32, raw: i32) -> bool {
+    let num = if raw < 0 { raw as i64 + 2048 } else { raw as i64 } * 90; // 360 deg = 2048 counts
+    trunc_ok(shown as i32, num, 512)
+}
+pub fn plausible_50(m: &[u32]) -> bool {
+    let roll = roll_raw_50(m);
+    let gs = gs_50(m);
+    let tas = tas_50(m);
+    status_50(m)
+        && bits(m, 35, 43) != 0 && bits(m, 46, 55) != 0 && bits(m, 57, 66) != 0 && bits(m, 69, 77) != 0 && bits(m, 79, 88) != 0
+        && roll * 45 <= 50 * 256 && roll * 45 >= -50 * 256
+        && gs <= 600 && tas <= 500
+        && (if gs > tas { gs - tas } else { tas - gs }) < 200
+}
+
+// ------------------------------------------------------------------ BDS 6,0
+pub fn status_60(m: &[u32]) -> bool {
+    b(m, 33) && b(m, 45) && b(m, 56) && b(m, 67) && b(m, 78)
+}
+pub fn heading_raw_60(m: &[u32]) -> i32 {
+    twos(bit(m, 34), bits(m, 35, 44), 10)
+}
+pub fn ias_60(m: &[u32]) -> u32 {
+    bits(m, 46, 55)
+}
+/// Mach in units of 2.048/512 = 0.004
+pub fn mach_raw_60(m: &[u32]) -> u32 {
+    bits(m, 57, 66)
+}
+/// barometric altitude rate in ft/min (LSB 32)
+pub fn baro_rate_60(m: &[u32]) -> i32 {
+    twos(bit(m, 68), bits(m, 69, 77), 9) * 32
+}
+pub fn inertial_rate_60(m: &[u32]) -> i32 {
+    twos(bit(m, 79), bits(m, 80, 88), 9) * 32
+}
+pub fn plausible_60(m: &[u32]) -> bool {
+    let br = baro_rate_60(m);
+    let ir = inertial_rate_60(m);
+    status_60(m)
+        && bits(m, 35, 44) != 0 && bits(m, 46, 55) != 0 && bits(m, 57, 66) != 0 && bits(m, 69, 77) != 0 && bits(m, 80, 88) != 0
+        && mach_raw_60(m) <= 250
+        && br <= 6000 && br >= -6000 && ir <= 6000 && ir >= -6000
+}
+
+// ------------------------------------------------------------------ BDS 1,7
+/// common-usage GICB capability report: bit 39 (BDS 2,0) set by the code's rule, bits 61-88 zero
+pub fn looks_17(m: &[u32]) -> bool {
+    b(m, 39) && bits(m, 61, 88) == 0
+}
+pub fn cap17_bds40(m: &[u32]) -> bool {
+    b(m, 41)
+}
+pub fn cap17_bds50(m: &[u32]) -> bool {
+    b(m, 48)
+}
+pub fn cap17_bds60(m: &[u32]) -> bool {
+    b(m, 56)
+}
